@@ -1,37 +1,66 @@
 #!/venv/bin/python
-"""run every kept seeded change against the checks: apply to /repo, run the claimed checks, undo. Writes /verif/seeded/RESULTS.json"""
-import json, os, subprocess, sys
+"""run every kept seeded change against the checks.  Each patch is applied to a scratch copy of /repo/renormalizer (outside /repo and /verif,
+removed afterwards) and every claimed check is run with --repo <copy>; /repo itself is never touched, so the seeds can be run in parallel.
+(`git -C /repo apply <patch>; python -m renostat check Cxx; git -C /repo checkout -- .` gives the same verdicts.)
+Writes /verif/seeded/RESULTS.json.   usage: run_seeds.py [--own] [seed-name ...]"""
+import json, os, shutil, subprocess, sys, tempfile
+from concurrent.futures import ThreadPoolExecutor
+
 SEEDED = "/verif/seeded"
 man = json.load(open("/verif/MANIFEST.json"))
 claimed = [c["property_id"] for c in man["checks"]]
-only = sys.argv[1:]
-res = {}
-if os.path.exists(f"{SEEDED}/RESULTS.json"):
-    res = json.load(open(f"{SEEDED}/RESULTS.json"))
-for name in sorted(os.listdir(SEEDED)):
+args = [a for a in sys.argv[1:] if not a.startswith("--")]
+own_only = "--own" in sys.argv
+
+
+def copy_tree(dst):
+    for dp, dn, fn in os.walk("/repo/renormalizer"):
+        dn[:] = [d for d in dn if d not in ("__pycache__", "tests")]
+        rel = os.path.relpath(dp, "/repo")
+        os.makedirs(os.path.join(dst, rel), exist_ok=True)
+        for f in fn:
+            if f.endswith(".py"):
+                shutil.copyfile(os.path.join(dp, f), os.path.join(dst, rel, f))
+
+
+def one(name):
     d = f"{SEEDED}/{name}"
-    if not os.path.isdir(d) or (only and name not in only):
-        continue
     meta = json.load(open(f"{d}/meta.json"))
-    st = subprocess.run(["git", "-C", "/repo", "status", "--porcelain"], capture_output=True, text=True).stdout.strip()
-    if st:
-        print("REPO NOT CLEAN, abort", st); sys.exit(2)
-    ap = subprocess.run(["git", "-C", "/repo", "apply", f"{d}/patch.diff"], capture_output=True, text=True)
-    if ap.returncode != 0:
-        res[name] = {"applied": False, "why": ap.stderr[-200:]}
-        print(name, "patch does not apply"); continue
+    tmp = tempfile.mkdtemp(prefix="renostat-seed-")
     try:
+        copy_tree(tmp)
+        ap = subprocess.run(["patch", "-p1", "-s", "-f", "--no-backup-if-mismatch", "-d", tmp, "-i", f"{d}/patch.diff"], capture_output=True, text=True)
+        if ap.returncode != 0:
+            return name, {"applied": False, "why": (ap.stdout + ap.stderr)[-200:]}
         hits = {}
-        for pid in claimed:
-            r = subprocess.run(["/venv/bin/python", "-m", "renostat", "check", pid, "--no-write"], cwd="/verif", capture_output=True, text=True)
+        for pid in ([meta.get("property")] if own_only else claimed):
+            r = subprocess.run(["/venv/bin/python", "-m", "renostat", "check", pid, "--no-write", "--repo", tmp], cwd="/verif", capture_output=True, text=True)
             if r.returncode != 0:
                 lines = [l.strip()[:300] for l in r.stdout.splitlines() if l.startswith("  " + pid) or l.startswith("ANALYSIS-ERROR")]
                 hits[pid] = {"exit": r.returncode, "findings": lines[:4]}
-        res[name] = {"applied": True, "property": meta.get("property"), "summary": meta.get("summary"), "caught_by": hits,
-                     "caught": any(h["exit"] == 1 for h in hits.values()), "caught_by_own_property_check": hits.get(meta.get("property"), {}).get("exit") == 1,
-                     "analysis_error_only": [p for p, h in hits.items() if h["exit"] != 1]}
-        print(f"{name:28s} property={meta.get('property')} violation_by={sorted(p for p, h in hits.items() if h['exit'] == 1)} analysis_error={sorted(p for p, h in hits.items() if h['exit'] != 1)}"
-              + ("" if res[name]["caught_by_own_property_check"] else "   <-- NOT caught by its own check"))
+        own = meta.get("property")
+        return name, {"applied": True, "property": own, "summary": meta.get("summary"), "caught_by": hits,
+                      "caught": any(h["exit"] == 1 for h in hits.values()), "caught_by_own_property_check": hits.get(own, {}).get("exit") == 1,
+                      "analysis_error_only": [p for p, h in hits.items() if h["exit"] != 1]}
     finally:
-        subprocess.run(["git", "-C", "/repo", "checkout", "--", "."], check=True)
+        shutil.rmtree(tmp, ignore_errors=True)
+
+
+names = [n for n in sorted(os.listdir(SEEDED)) if os.path.isdir(f"{SEEDED}/{n}") and (not args or n in args)]
+res = json.load(open(f"{SEEDED}/RESULTS.json")) if os.path.exists(f"{SEEDED}/RESULTS.json") and (args or own_only) else {}
+with ThreadPoolExecutor(max_workers=12) as ex:
+    for name, r in ex.map(one, names):
+        if own_only and name in res and res[name].get("applied"):
+            res[name]["caught_by"].update(r.get("caught_by", {}))
+            res[name]["caught_by_own_property_check"] = r.get("caught_by_own_property_check")
+        else:
+            res[name] = r
+        if not r.get("applied"):
+            print(f"{name:44s} patch does not apply: {r.get('why')}")
+            continue
+        hits = r["caught_by"]
+        print(f"{name:44s} property={r['property']} violation_by={sorted(p for p, h in hits.items() if h['exit'] == 1)} analysis_error={sorted(p for p, h in hits.items() if h['exit'] != 1)}"
+              + ("" if r["caught_by_own_property_check"] else "   <-- NOT caught by its own check"))
 json.dump(res, open(f"{SEEDED}/RESULTS.json", "w"), indent=1)
+n_own = sum(1 for r in res.values() if r.get("caught_by_own_property_check"))
+print(f"{n_own}/{len(res)} seeded changes reported as VIOLATION by the check of their own property")
